@@ -28,8 +28,9 @@ var importMap = map[string]string{
 	"context":                    mcPath + "/mctx",
 	"golang.org/x/sync/errgroup": mcPath + "/merrgroup",
 	"os":                         mcPath + "/mos",
+	"time":                       mcPath + "/mtime",
 }
-var importName = map[string]string{"sync": "sync", "sync/atomic": "atomic", "context": "context", "golang.org/x/sync/errgroup": "errgroup", "os": "os"}
+var importName = map[string]string{"sync": "sync", "sync/atomic": "atomic", "context": "context", "golang.org/x/sync/errgroup": "errgroup", "os": "os", "time": "time"}
 
 var baseDir string
 var workerVars []string
